@@ -169,6 +169,13 @@ theorem scenarioGunConfigTags_timeout : ("Timeout", "timeout") ∈ Gen.GrpcGun.s
 theorem ammoJsonTags_eq :
     Gen.GrpcGun.ammoJsonTags = [("Tag", "tag"), ("Call", "call"), ("Metadata", "metadata"), ("Payload", "payload")] := rfl
 
+/-- grpc/json decodes every line into a fresh zero-valued ammo and resets the pooled object with all four of its
+fields; `Reset` assigns the whole struct (`Model.C20.decodeAmmo`, `resetAmmo`) -/
+theorem ammoDecodeInto_eq : Gen.GrpcGun.ammoDecodeInto = "&$fresh (a zero-valued local of type grpc.Ammo)" := rfl
+theorem ammoResetCall_eq :
+    Gen.GrpcGun.ammoResetCall = "$1.Reset($fresh.Tag, $fresh.Call, $fresh.Metadata, $fresh.Payload)" := rfl
+theorem ammoResetBody_eq : Gen.GrpcGun.ammoResetBody = "*$recv = Ammo{$0, $1, $2, $3, 0, false}" := rfl
+
 /-- grpc/json keeps payload numbers as written (`json.Number`): the model's `convert` works on the literal text -/
 theorem payloadNumbers_eq : Gen.GrpcGun.payloadNumbers = "json.Number" := rfl
 
